@@ -130,6 +130,16 @@ def packet_faults(d, rnd, tier):
             if v < 0:
                 continue
             out.append(('strlen@%d=%s' % (o, v if v < 1 << 20 else 'huge'), f_patch(o, struct.pack('>I', v & 0xffffffff))))
+    # the content of every top-level string altered in place, lengths and framing untouched: bytes outside US-ASCII (a lone
+    # 0xE9, the UTF-8 pair C3 A9), NUL, and a comma (splitting a name / leaving an empty name)
+    for o, ln in offs:
+        if ln < 2:
+            continue
+        for where, pos in (('first', o + 4), ('last', o + 4 + ln - 2)):
+            for label, bs in (('e9', b'\xe9'), ('utf8', b'\xc3\xa9'), ('nul', b'\x00'), ('comma', b',')):
+                if tier == 'quick' and (where, label) in (('last', 'nul'), ('first', 'comma'), ('last', 'e9')):
+                    continue
+                out.append(('strbyte@%d/%s=%s' % (o, where, label), f_patch(pos, bs)))
     ks = sorted({0, 1, 3, 4, 5, 6, 7, n // 2, n - 1} | ({o for o, _ in offs} | {o + 4 for o, _ in offs} if tier == 'thorough' else set()))
     if tier == 'thorough':
         ks = range(0, n)
@@ -445,7 +455,7 @@ def run(tier):
         if ok:
             ck.cov['traces_validated_against_impl'] += 1
             continue
-        if point is not None and point[1] == 'gexgroup' and any(t in what for t in ('randmut', 'strlen', 'random')) and 'random+eof' not in what:
+        if point is not None and point[1] == 'gexgroup' and any(t in what for t in ('randmut', 'strlen', 'strbyte', 'random')) and 'random+eof' not in what:
             # a group message whose interior was altered is simply a different group: the environment model (Group) no longer
             # describes this server, so its trace is not judged; the direct clauses above were
             ck.notes.append('not trace-validated (server answers a tampered group): %s %s' % (name, what)) if len(ck.notes) < 5 else None
@@ -484,6 +494,7 @@ def fault_class(what):
     w = re.sub(r'shortpayload@\d+', 'shortpayload', w)
     w = re.sub(r'strlen@\d+=\d+', 'strlen', w)
     w = re.sub(r'strlen@\d+=huge', 'strlen=huge', w)
+    w = re.sub(r'strbyte@\d+/(first|last)=', 'strbyte=', w)
     w = re.sub(r'plen=\d+', 'plen', w)
     w = re.sub(r'padlen=\d+', 'padlen', w)
     w = re.sub(r'type=\d+', 'type', w)
